@@ -156,6 +156,10 @@ func runBatch(t *testing.T, rc *RunCtx, prop string) {
 		runScatterTable(t, rc)
 		return
 	}
+	if rc.Param("mode", "") == "free" {
+		runBatchFree(t, rc, prop)
+		return
+	}
 	procs := gomaxprocsSet[ch.Pick(len(gomaxprocsSet), 0)]
 	prev := runtime.GOMAXPROCS(procs)
 	defer runtime.GOMAXPROCS(prev)
